@@ -330,11 +330,13 @@ def focus_profile(globs=(("os", "system"), ("builtins", "eval")), ops=FOCUS_OPS,
 
 
 def full_profile(globs, **kw):
+    # default weight is 2; opcodes fickling does not implement get 1 (they end in a refusal)
     weights = {
-        "GLOBAL": 4, "REDUCE": 6, "OBJ": 4, "INST": 3, "NEWOBJ": 4, "NEWOBJ_EX": 4, "BUILD": 4,
-        "BINPERSID": 2, "MARK": 3, "POP": 2, "DUP": 2, "TUPLE": 2, "TUPLE1": 2, "BINGET": 3,
-        "MEMOIZE": 2, "STACK_GLOBAL": 6, "SETITEM": 3, "SETITEMS": 3, "ADDITEMS": 3, "APPEND": 2,
-        "APPENDS": 2, "FROZENSET": 2, "DICT": 2, "EMPTY_SET": 2, "EMPTY_DICT": 2,
+        "GLOBAL": 10, "REDUCE": 12, "OBJ": 8, "INST": 5, "NEWOBJ": 8, "NEWOBJ_EX": 8, "BUILD": 6,
+        "BINPERSID": 3, "MARK": 6, "POP": 4, "DUP": 4, "TUPLE": 4, "TUPLE1": 4, "BINGET": 6,
+        "MEMOIZE": 4, "STACK_GLOBAL": 12, "SETITEM": 6, "SETITEMS": 6, "ADDITEMS": 6, "APPEND": 4,
+        "APPENDS": 4, "FROZENSET": 4, "DICT": 4, "EMPTY_SET": 3, "EMPTY_DICT": 3, "POP_MARK": 3,
+        "PERSID": 1, "FLOAT": 1, "BYTEARRAY8": 1, "EMPTY_TUPLE": 4,
     }  # fmt: skip
     kw.setdefault("weights", weights)
     return Profile(
@@ -363,6 +365,7 @@ class State:
         self.tags = set()
         self.call_results = []
         self.instrs = []
+        self.excluded = {}  # choices withheld because of an exclusion flag
 
     # -- helpers
     def tsm(self):
@@ -378,19 +381,31 @@ class State:
         st = self.st
         return len(st) >= n and all(st[-i].k != "mark" for i in range(1, n + 1))
 
+    def _excl(self, key):
+        self.excluded[key] = self.excluded.get(key, 0) + 1
+
     def _mutable(self, v):
-        return not (self.p.no_mutation_after_capture and v.cap)
+        if self.p.no_mutation_after_capture and v.cap:
+            self._excl("KF-C03-2 mutation-after-capture")
+            return False
+        return True
 
     def _can_insert(self, items, target):
         if not self.p.acyclic:
             return True
-        return not any(reaches(x, target) for x in items)
+        if any(reaches(x, target) for x in items):
+            self._excl("cyclic (outside quantifier)")
+            return False
+        return True
 
     def _name_ok(self, module, name):
         if not self.p.unique_attr_names:
             return True
         m = norm_module(module)
-        return self.names.get(name, m) == m
+        if self.names.get(name, m) != m:
+            self._excl("KF-C03-1 attr-name-collision")
+            return False
+        return True
 
     def _callable(self, v):
         return v.k in ("glob", "obj")
@@ -401,10 +416,36 @@ class State:
         st = self.st
         out = []
         t = self.tsm()
+        boost = self._boosts(t) if p.weights else {}
         for op in p.ops:
             if self._legal(op, t):
-                out.extend([op] * p.weights.get(op, 1))
+                w = p.weights.get(op, 2 if p.weights else 1)
+                out.extend([op] * (w * boost.get(op, 1)))
         return out
+
+    def _boosts(self, t):
+        """Goal-directed weighting: steer the random walk towards completing calls."""
+        st = self.st
+        b = {}
+        n = len(st)
+        if n >= 1 and self._callable(st[-1]):
+            b.update(EMPTY_TUPLE=5, MARK=2, NONE=2)
+        if n >= 2 and self._callable(st[-2]) and st[-1].k not in ("mark", "tuple"):
+            b.update(TUPLE1=8)
+        if n >= 2 and self._callable(st[-2]) and st[-1].k == "tuple":
+            b.update(REDUCE=4, NEWOBJ=4, EMPTY_DICT=4)
+        if n >= 3 and self._callable(st[-3]) and st[-2].k == "tuple" and st[-1].k == "dict":
+            b.update(NEWOBJ_EX=10, SHORT_BINUNICODE=3)
+        if n >= 4 and self._callable(st[-4]) and st[-3].k == "tuple" and st[-2].k == "dict":
+            if st[-1].k == "str":
+                b.update(NONE=3, BININT1=3)
+        if n >= 5 and self._callable(st[-5]) and st[-4].k == "tuple" and st[-3].k == "dict":
+            b.update(SETITEM=10)
+        if t is not None and t >= 1 and self._callable(st[n - t]):
+            b.update(OBJ=4)
+        if n >= 2 and st[-2].k in ("obj", "glob") and st[-1].k != "mark":
+            b.setdefault("BUILD", 3)
+        return b
 
     def _legal(self, op, t):
         st = self.st
@@ -545,7 +586,17 @@ class State:
     def _call(self, op, parts):
         for v in parts:
             capture(v)
-        r = V("obj", parts, call=op)
+        kind = "obj"
+        callee = parts[0] if parts else None
+        if (
+            callee is not None
+            and callee.k == "glob"
+            and callee.val is not None
+            and (norm_module(callee.val[0]), callee.val[1]) == ("builtins", "frozenset")
+        ):
+            # the frozenset stand-in really builds a frozenset (plain data, no BUILD on it)
+            kind = "fset"
+        r = V(kind, parts, call=op)
         self.call_results.append(r)
         self.tags.add("call:" + op)
         return r
@@ -705,9 +756,10 @@ def finalize(state):
 
 
 class Program:
-    __slots__ = ("instrs", "proto", "frame", "tags", "data", "ncalls")
+    __slots__ = ("instrs", "proto", "frame", "tags", "data", "ncalls", "excluded")
 
-    def __init__(self, instrs, proto, frame, tags, ncalls):
+    def __init__(self, instrs, proto, frame, tags, ncalls, excluded=None):
+        self.excluded = dict(excluded or {})
         self.instrs = list(instrs)
         self.proto = proto
         self.frame = frame
@@ -796,7 +848,7 @@ def programs(profile, max_len=14, min_len=1, framing=True):
         if framing:
             proto = draw(hs.sampled_from([None, None, 2, 3, 4, 5]))
             frame = proto is not None and proto >= 4 and draw(hs.booleans())
-        return Program(s.instrs, proto, frame, s.tags, len(s.call_results))
+        return Program(s.instrs, proto, frame, s.tags, len(s.call_results), s.excluded)
 
     return _prog()
 
@@ -847,7 +899,7 @@ def enumerate_from(profile, prefix, max_len):
         s, exts = _expand(profile, pre)
         if pre and s._legal("STOP", s.tsm()):
             s.apply(("STOP", None))
-            yield Program(s.instrs, None, False, s.tags, len(s.call_results))
+            yield Program(s.instrs, None, False, s.tags, len(s.call_results), s.excluded)
         if len(pre) < max_len:
             for e in reversed(exts):
                 stack.append(pre + (e,))
@@ -860,4 +912,4 @@ def enumerate_short(profile, depth):
             s = simulate_trusted(profile, pre)
             if s._legal("STOP", s.tsm()):
                 s.apply(("STOP", None))
-                yield Program(s.instrs, None, False, s.tags, len(s.call_results))
+                yield Program(s.instrs, None, False, s.tags, len(s.call_results), s.excluded)
